@@ -231,11 +231,12 @@ def run(ctx):
                       nontrivial=(len(set(flat)) < len(flat) or flat != sorted(flat)))
   ctx.sample({'estimator': pairs[0][1]['est'], 'events': pairs[0][1]['events'][:2]})
   ctx.extra['methods_covered'] = sorted({e['method'] for _, t in pairs for e in t['events']})
-  good = pairs[0][1]
+  good = next((t for r, t in pairs if any(e['ev'] == 'PreprocCall' and e['method'] != 'fit' and e['size'] >= 2 and len(e['calls']) >= 2
+                                         and e['calls'][0] != e['calls'][1] for e in t['events'])), pairs[0][1])
 
   def swap_cols(t):
     for e in t['events']:
-      if e['ev'] == 'PreprocCall' and e['size'] >= 2 and len(e['calls']) >= 2 and e['calls'][0] != e['calls'][1]:
+      if e['ev'] == 'PreprocCall' and e['method'] != 'fit' and e['size'] >= 2 and len(e['calls']) >= 2 and e['calls'][0] != e['calls'][1]:
         e['calls'][0], e['calls'][1] = e['calls'][1], e['calls'][0]
         return
   core.selftest_binding(ctx, *SPEC, good, swap_cols, 'X05.preprocessor_called', 'columns_swapped')
